@@ -222,6 +222,17 @@ func (r *ClientRun) run(tag string) {
 			case "early-response":
 				cc.H2.WriteRequestHeaders(sid, [][2]string{{":method", "POST"}, {":scheme", "https"}, {":authority", "example.com"}, {":path", "/early/" + tag}, {"content-length", "1000"}}, false, nil, nil)
 				cc.H2.AwaitResponse(sid, r.finish)
+			case "upload-then-vanish":
+				// a request body is half-way (HEADERS without END_STREAM and 100 KB of DATA) when the client disappears
+				cc.H2.WriteRequestHeaders(sid, [][2]string{{":method", "POST"}, {":scheme", "https"}, {":authority", "example.com"}, {":path", "/drain-when-gone/" + tag}}, false, nil, nil)
+				chunk := make([]byte, 10000)
+				for k := 0; k < 5; k++ {
+					cc.H2.Fr.WriteData(sid, false, chunk)
+				}
+				time.Sleep(50 * time.Millisecond)
+				r.markReady()
+				c.Conn.Close()
+				return
 			case "self-dependent":
 				cc.H2.WriteRequestHeaders(sid, [][2]string{{":method", "GET"}, {":scheme", "https"}, {":authority", "example.com"}, {":path", "/" + tag + "/selfdep"}}, true, &Prio{Dep: sid, Weight: 10}, nil)
 				cc.H2.AwaitResponse(sid, r.finish)
